@@ -28,6 +28,7 @@ func VString(v *ast.Value) string { panic("ghost") }
 //@ assume-nonnil-field ast.ArgumentDefinition.Type
 
 //@ extern github.com/vektah/gqlparser/v2/ast (*Type).Name
+//@ requires t != nil
 //@ ensures result == TName(t)
 //@ modifies fresh
 //@ end
@@ -189,6 +190,7 @@ func VString(v *ast.Value) string { panic("ghost") }
 
 // TString: what (*ast.Type).String returns (the full type reference, e.g. [Int!]!).
 //@ extern github.com/vektah/gqlparser/v2/ast (*Type).String
+//@ requires t != nil
 //@ ensures result == TString(t)
 //@ modifies fresh
 //@ end
